@@ -50,6 +50,8 @@ def _apply(rebound, rb, sim, cfg, op):
     k = op["op"]
     if k in ("steps", "integrate") and sim.N > 0 and sim.N_active == 0:
         return "skip"           # "no active particle at all" is a degenerate set-up several integrators do not survive
+    if k == "integrate" and sim.N == 0:
+        return "skip"           # empty simulation: the NO_PARTICLES exit is C08's subject (with BS it also depends on whether the internal ODE exists yet)
     if k == "steps":
         if sim.N == 0:
             return "skip"       # only integrate() promises a clean NO_PARTICLES exit; stepping an empty simulation is user error
@@ -126,7 +128,12 @@ def _apply(rebound, rb, sim, cfg, op):
     elif k == "move":
         if sim.N == 0:
             return "skip"
-        p = sim.particles[op["pick"] % sim.N]
+        nreal = sim.N - sim.N_var
+        hs = sorted((sim.particles[i].hash.value, i) for i in range(nreal))
+        if len(set(h for h, i in hs)) == nreal:
+            p = sim.particles[hs[op["pick"] % nreal][1]]      # by rank of hash: the array order is unspecified when a tree is in use
+        else:
+            p = sim.particles[op["pick"] % sim.N]
         p.x += op.get("dx", 0.0)
         p.vy += op.get("dvy", 0.0)
         p.m *= op.get("fm", 1.0)
@@ -140,6 +147,16 @@ def _apply(rebound, rb, sim, cfg, op):
         if sim.N_var or sim.N < 2 or not var_ok(sim, sim.integrator, None, current=True) or sim.integrator == "bs":
             return "skip"
         sim.init_megno(seed=op.get("seed", 3))
+    elif k == "set_lrescale":
+        # documented user-visible member of a variational configuration (docs/chaos.md); -1 disables rescaling
+        n = rb.getf(sim, "N_var_config")
+        if not n:
+            return "skip"
+        base = rb.getf_ptr(sim, "var_config")
+        i = op.get("pick", 0) % n
+        off = rb.VC.m["lrescale"][0]
+        import struct as _st
+        ctypes.memmove(base + i * rb.VC.size + off, _st.pack("<d", op["value"]), 8)
     elif k == "display_settings":
         rb.L.reb_simulation_add_display_settings(ctypes.byref(sim))
     elif k == "clock_jump":
